@@ -55,11 +55,13 @@ void h_life_mt(void) {
   MT st; SYM_SZ(a); SYM_SZ(b); SYM_SZ(c); SYM_SZ(g1); SYM_SZ(g2); __CPROVER_assume(g1 < a && g2 < b);
   mt_ctor(&st);
   cv_i8 *p1 = mt_alloc(&st, a);                                       /* frame 1: own block */
+  p1[g1] = 0x11;                                                      /* canary at an arbitrary position of frame 1 */
   cv_i8 *p2 = mt_alloc(&st, b);                                       /* frame 2 while frame 1 is alive: must not get the same memory */
   __CPROVER_assert(__CPROVER_rw_ok(p1, a) && __CPROVER_rw_ok(p2, b), "mtsafe: both frames fit");
   __CPROVER_assert(!__CPROVER_same_object(p1, p2), "mtsafe: two simultaneously live frames never share a block");
+  __CPROVER_assert(p1[g1] == 0x11, "mtsafe: allocating frame 2 does not write into live frame 1");
   __CPROVER_assert(gh_allocs == 2 && gh_frees == 0, "mtsafe: own block + one heap fallback");
-  p1[g1] = 0x11; p2[g2] = 0x22;                                       /* canaries at arbitrary positions of each frame */
+  p2[g2] = 0x22;                                                      /* canary at an arbitrary position of frame 2 */
   if (nondet_bool()) {
     mt_dealloc(p2, b);                                                /* fallback frame ends first */
     __CPROVER_assert(gh_frees == 1 && p1[g1] == 0x11 && MT_BUSY(&st) == 1, "mtsafe: fallback released once, own frame undisturbed, block still taken");
